@@ -36,6 +36,7 @@ pub fn suites() -> Vec<(&'static str, Suite)> {
         ("aruns", c03::run_aruns as Suite),
         ("aa_spans", c03::run_aa_spans as Suite),
         ("hair_spans", c06::run_hair_spans as Suite),
+        ("hair_aa", c06::run_hair_aa as Suite),
         ("hair_px", c06::run_hair_px as Suite),
         ("line_clip", c06::run_line_clip as Suite),
         ("dash_new", c07::run_dash_new as Suite),
